@@ -44,7 +44,9 @@ ISAS = [
     ("wasm", "amoco.arch.wasm.cpu", None, [("wasm", {})]),
     ("x64", "amoco.arch.x64.cpu_x64", "amoco.arch.x64.env", [("m64", {"mode": 64})]),
     ("x86", "amoco.arch.x86.cpu_x86", "amoco.arch.x86.env", [("m32", {"mode": 32}), ("m16", {"mode": 16})]),
-    ("z80", "amoco.arch.z80.cpu_z80", None, [("z80", {})]),
+    # "z80+gb": the Z80 decoder in a process that has also imported the GameBoy module (they share
+    # amoco.arch.z80.env; a configuration a user gets by loading both cpu modules)
+    ("z80", "amoco.arch.z80.cpu_z80", None, [("z80", {}), ("z80+gb", {"__preload__": "amoco.arch.z80.cpu_gb"})]),
     ("gb", "amoco.arch.z80.cpu_gb", None, [("gb", {})]),
 ]
 # modules that do not import on the pinned tree (outside every per-ISA quantifier; see DESIGN.md)
@@ -113,13 +115,18 @@ def flat_specs(tree):
 
 
 class Isa(object):
-    """One ISA module in one decode mode."""
+    """One ISA module in one decode mode.  Drivers create it in a process that serves this ISA only
+    (pools with maxtasksperchild=1): importing one cpu module can change another one's tables (importing
+    z80.cpu_gb deletes entries of the env.CONDITION table the Z80 decoder uses)."""
 
     def __init__(self, name, mode=None):
         ent = [e for e in ISAS if e[0] == name]
         if not ent:
             raise KeyError(name)
         self.name, self.modname, self.envname, self.modes = ent[0]
+        pre = dict(self.modes)[mode or self.modes[0][0]].get("__preload__")
+        if pre:
+            importlib.import_module(pre)
         self.cpu = importlib.import_module(self.modname)
         self.env = importlib.import_module(self.envname) if self.envname else None
         self.dis = self.cpu.disassemble
@@ -130,7 +137,7 @@ class Isa(object):
         self.has_prefix = any(s.pfx is True for s in self.specs())
 
     def set_mode(self, mode):
-        vals = dict(self.modes)[mode]
+        vals = dict((k, v) for k, v in dict(self.modes)[mode].items() if not k.startswith("__"))
         if self.env is not None:
             self.env.internals.update(vals)
         self.mode = mode
